@@ -473,6 +473,19 @@ func genHttpConv(r *Rand, tier string, emit func(sx.Sx)) {
 		}
 		emit(sx.L(mk("/index.html", 200), sx.L(sx.A("ex"), req, resp), mk("/api/cart?id=7", 200), mk("/api/order", 201)))
 	}
+	// a conditional GET answered 304 with the Content-Length of the representation it does not send (and a 204 with
+	// Content-Length: 0): bodyless whatever the header says, the next exchange starts right behind the header block
+	for _, st := range []int{304, 204} {
+		cl := "5120"
+		if st == 204 {
+			cl = "0"
+		}
+		req := sx.L(sx.A("req"), sx.S("GET"), sx.S("/cached.css"), sx.N(1), sx.L(sx.L(sx.S("Host"), sx.S("host.example")), sx.L(sx.S("If-None-Match"), sx.S("\"abc\""))), sx.A("none"), sx.B(nil))
+		resp := sx.L(sx.A("resp"), sx.N(st), sx.S("Not Modified"), sx.N(1), sx.L(sx.L(sx.S("Etag"), sx.S("\"abc\"")), sx.L(sx.S("Content-Length"), sx.S(cl))), sx.A("none"), sx.B(nil))
+		next := sx.L(sx.A("ex"), sx.L(sx.A("req"), sx.S("GET"), sx.S("/after"), sx.N(1), sx.L(sx.L(sx.S("Host"), sx.S("host.example"))), sx.A("none"), sx.B(nil)),
+			sx.L(sx.A("resp"), sx.N(200), sx.S("OK"), sx.N(1), sx.L(), sx.A("cl"), sx.B([]byte("hello"))))
+		emit(sx.L(sx.L(sx.A("ex"), req, resp), next))
+	}
 	{
 		hs := sx.L(sx.L(sx.S("Host"), sx.S("host.example")), sx.L(sx.S("Expect"), sx.S("100-continue")))
 		req := sx.L(sx.A("req"), sx.S("POST"), sx.S("/up"), sx.N(1), hs, sx.A("cl"), sx.B([]byte("payload")))
